@@ -187,3 +187,57 @@ Proof.
       * split; [exists ta; rewrite <- A1; repeat split; assumption|].
         intros b Hb. rewrite aget_aput, A1. destruct (b =? id) eqn:Eb; [lia|reflexivity].
 Qed.
+
+(* ---------------------------------------------------------------- embargo: held calls are let through in issue order *)
+Lemma held_app : forall e a b, held e (a ++ b) = held e a ++ held e b.
+Proof. intros. unfold held. rewrite filter_app, map_app. reflexivity. Qed.
+
+Lemma wake_calls_order : forall e j l s,
+  delivs (snd (wake_calls e (CLocal j) l s)) = number j (s_ndeliv s) (held e l) /\
+  s_ndeliv (fst (wake_calls e (CLocal j) l s)) = s_ndeliv s + Z.of_nat (length (held e l)) /\
+  s_ecalls (fst (wake_calls e (CLocal j) l s)) = s_ecalls s /\
+  s_queue (fst (wake_calls e (CLocal j) l s)) = s_queue s /\ s_ans (fst (wake_calls e (CLocal j) l s)) = s_ans s.
+Proof.
+  induction l as [|[[e' n] tag] l IH]; intros s.
+  - simpl. repeat split; lia.
+  - cbn [wake_calls]. unfold held. cbn [filter fst snd]. destruct (e' =? e) eqn:E.
+    + match goal with |- context [wake_calls e (CLocal j) l ?sx] => specialize (IH sx); destruct (wake_calls e (CLocal j) l sx) as [s2 o2] end.
+      cbn [fst snd map number length] in *. destruct IH as (I1 & I2 & I3 & I4 & I5).
+      unfold set_ndeliv, set_lcalls in *. cbn [s_ndeliv s_ecalls s_queue s_ans] in *.
+      split; [unfold delivs in *; cbn [flat_map deliv_of app]; f_equal; exact I1|]. split; [fold (held e l) in *; lia|]. repeat split; assumption.
+    + apply IH.
+Qed.
+
+Lemma held_filter_out : forall e l, held e (filter (fun p => negb (fst (fst p) =? e)) l) = [].
+Proof.
+  intros e l. unfold held. induction l as [|p l IH]; simpl; [reflexivity|].
+  destruct (fst (fst p) =? e) eqn:E; simpl; [exact IH|]. rewrite E. exact IH.
+Qed.
+Lemma held_filter_other : forall e e' l, e' <> e -> held e' (filter (fun p => negb (fst (fst p) =? e)) l) = held e' l.
+Proof.
+  intros e e' l Hne. unfold held. induction l as [|p l IH]; simpl; [reflexivity|].
+  destruct (fst (fst p) =? e) eqn:E; simpl.
+  - destruct (fst (fst p) =? e') eqn:E'; [lia|exact IH].
+  - destruct (fst (fst p) =? e') eqn:E'; simpl; [f_equal|]; exact IH.
+Qed.
+
+(* the Disembargo comes back for embargo e on local server j: exactly the calls held behind e are
+   delivered, oldest first, as the next deliveries; nothing stays behind e; other embargoes keep theirs *)
+Lemma disembargo_order : forall tg e em j s s1 o ab,
+  handle_disembargo cfg_fixed tg (DxReceiver e) s = Ok (s1, o, ab) -> parse_target tg <> None ->
+  tget e (s_emb s) = Some em -> e_cap em = CLocal j ->
+  delivs o = number j (s_ndeliv s) (held e (s_ecalls s)) /\
+  s_ndeliv s1 = s_ndeliv s + Z.of_nat (length (held e (s_ecalls s))) /\
+  held e (s_ecalls s1) = [] /\ (forall e', e' <> e -> held e' (s_ecalls s1) = held e' (s_ecalls s)) /\
+  s_queue s1 = s_queue s /\ s_ans s1 = s_ans s.
+Proof.
+  intros tg e em j s s1 o ab H Hp He Hc. unfold handle_disembargo in H.
+  destruct (parse_target tg); [|contradiction]. rewrite He in H. unfold lift in H.
+  cbn [fx22 cfg_fixed negb] in H. rewrite andb_false_r in H. rewrite Hc in H.
+  match type of H with context [wake_calls e (CLocal j) ?l ?sx] =>
+    pose proof (wake_calls_order e j l sx) as W; destruct (wake_calls e (CLocal j) l sx) as [s2 o2] end.
+  cbn [bind fst snd] in *. inversion H; subst. destruct W as (W1 & W2 & W3 & W4 & W5).
+  unfold lref_cap, lref, set_lrefs, set_handles, set_mgen, set_emb, set_ecalls in *. cbn [s_ndeliv s_ecalls s_queue s_ans] in *.
+  split; [exact W1|]. split; [exact W2|]. split; [apply held_filter_out|]. split; [|split; assumption].
+  intros e' Hne. rewrite W3. apply held_filter_other. exact Hne.
+Qed.
